@@ -166,7 +166,10 @@ def handleE2E {K V P H M Pat} [DecidableEq K] [DecidableEq V] [DecidableEq P]
   -- fires, this build is outside the region the theorem covers: search the dumped automaton
   -- (model traversal, which the RUN stage ties to the implementation) for a failing host.
   let mut guardHit := false
-  match Automaton.buildTD dom.toTree dom.D.req FUEL inputs evs with
+  -- strict replay: buildTE (c1T, c1C, c4T, c1D, c1E) for the shipped domains; the table test
+  -- domain, on whose real logs c1E can fail, is judged against buildTD
+  match (if dom.name == "TAB" then Automaton.buildTD dom.toTree dom.D.req FUEL inputs evs
+         else Automaton.buildTE dom.toTree dom.D.req FUEL inputs evs) with
   | .ok _ => pure ()
   | .error _ =>
     guardHit := true
